@@ -18,3 +18,10 @@ Definition check_isrv (pre : list label) (accepted : bool) (seqs : list nat) (en
       end
   | None => false
   end.
+
+(* sends of the clients (C09): results in order *)
+Definition check_isrv_sends (pre : list label) (results : list bool) : bool :=
+  match run init pre with
+  | Some s => leqb Bool.eqb (sres s) results
+  | None => false
+  end.
